@@ -12,10 +12,10 @@ import scipy.sparse as sps
 from pmc import modspecs as ms
 
 PROPERTY = 'C03'
-RULE = ("stateless exploration of call histories on 14 networks (N1 filter+stiffness+sparse LinSolve, N2 block rhs, N3 "
+RULE = ("stateless exploration of call histories on 15 networks (N1 filter+stiffness+sparse LinSolve, N2 block rhs, N3 "
         "CG(SOR) with initial-guess memory, N4 sparse EigenSolve, N5 OverhangFilter+KS, N6 SystemOfEquations, N7 "
         "StaticCondensation, N8 complex dynamic stiffness + LinSolve + ComplexNorm, N9 bare dense LinSolve whose matrix "
-        "table holds different matrix classes, N10 the same with definite -> indefinite -> definite symmetric matrices, N11 CG with geometric multigrid, N12 sparse eigenvectors seeded one mode at a time, N13 block right-hand side whose seeds mix seen and new columns, N14 CG on a block of load cases of which one changes); every protocol-respecting sequence over {I0,I1,I2,R,S0,S1,B,Z} up to the "
+        "table holds different matrix classes, N10 the same with definite -> indefinite -> definite symmetric matrices, N11 CG with geometric multigrid, N12 sparse eigenvectors seeded one mode at a time, N13 block right-hand side whose seeds mix seen and new columns, N14 CG on a block of load cases of which one changes, N15 bare LinSolve whose matrix table changes the sparsity pattern); every protocol-respecting sequence over {I0,I1,I2,R,S0,S1,B,Z} up to the "
         "depth bound, each followed by clean cycles for all (k,j), j in {output 0, output 1, both outputs} (the first fresh after the sequence, rotating); on every "
         "intermediate state: after Z no sensitivity is left, B without a seed changes nothing, R,R equals R. Level 'reseeded-passes': "
         "every clean cycle followed by every cycle (k,j,j2[,j3]) = clean cycle (k,j) then reset+seed j2+sensitivity WITHOUT a new response, "
@@ -26,7 +26,7 @@ ASSUMPTIONS = ["documented memories (Scaling first value, damped AggScaling, wri
                "pymoto.core_objects.get_init_str (diagnostic only) replaced by a constant"]
 
 OPS = ['I0', 'I1', 'I2', 'R', 'S0', 'S1', 'B', 'Z']
-NETS = ['N1', 'N2', 'N3', 'N4', 'N5', 'N6', 'N7', 'N8', 'N9', 'N10', 'N11', 'N12', 'N13', 'N14']
+NETS = ['N1', 'N2', 'N3', 'N4', 'N5', 'N6', 'N7', 'N8', 'N9', 'N10', 'N11', 'N12', 'N13', 'N14', 'N15']
 
 
 def _xs(nel, t):
@@ -167,6 +167,20 @@ def build(name, t=0):
         net = pym.Network()
         u = net.append(pym.LinSolve([A, b]))
         sources, tables = [A, b], [[S, b.state], [N, b.state], [C, b.state]]
+        outs = [u, u]
+        seeds = [np.array([1.0, 0.0, 0.0]), np.array([0.3, -0.7, 1.1])]
+        x = A
+    elif name == 'N15':
+        # bare dense LinSolve whose matrix table changes the SPARSITY PATTERN: a dof that is decoupled (only its diagonal
+        # entry) for one input is coupled for the next one and the other way round
+        D0 = np.array([[4., 1, 0], [1, 3, 0], [0, 0, 5]])
+        D1 = np.array([[4., 1, 0.5], [1, 3, 0.2], [0.5, 0.2, 5]])
+        D2 = np.array([[4., 0, 0.5], [0, 3, 0], [0.5, 0, 5]])
+        A = pym.Signal('A', D0.copy())
+        b = pym.Signal('b', np.array([1., 2., -1.]))
+        net = pym.Network()
+        u = net.append(pym.LinSolve([A, b]))
+        sources, tables = [A, b], [[D0, b.state], [D1, b.state], [D2, b.state]]
         outs = [u, u]
         seeds = [np.array([1.0, 0.0, 0.0]), np.array([0.3, -0.7, 1.1])]
         x = A
